@@ -285,7 +285,7 @@ class PythonCryptoEndpoint(CryptoEndpoint, EndpointListener):
 
             try:
                 cell.message = hop.keys.encrypt_str(cell.message, direction)
-            except ValueError as e:
+            except (ValueError, RuntimeError) as e:
                 msg = f"Failed to encrypt cell for {cell.circuit_id} (dir {direction}) (layer {layer + 1}/{len(hops)})"
                 raise CryptoException(msg) from e
 
@@ -305,7 +305,7 @@ class PythonCryptoEndpoint(CryptoEndpoint, EndpointListener):
 
             try:
                 cell.message = hop.keys.decrypt_str(cell.message, direction)
-            except ValueError as e:
+            except (ValueError, RuntimeError) as e:
                 msg = f"Failed to decrypt cell for {cell.circuit_id} (dir {direction}) (layer {layer + 1}/{len(hops)})"
                 raise CryptoException(msg) from e
 
